@@ -77,6 +77,7 @@ class Path:
         self.call_depth = 0
         self.trace = []            # human-readable branch trace
         self.lemma_pos = 0
+        self.maps_used = {}        # comprehension maps built on this path (map extensionality)
         self.reads = []            # attribute reads on tracked objects (read frames)
         self.writes = []           # heap writes to pre-existing objects (frames)
 
@@ -187,6 +188,21 @@ class Path:
             # continue as if it held, so that later obligations are independent
             self.assume(f)
         return ob
+
+    def try_prove(self, formula, timeout_ms=5000):
+        """auxiliary lemma attempt (not an obligation): True iff pc |= formula was established"""
+        f = z3.simplify(formula)
+        if z3.is_true(f):
+            return True
+        self.flush_lemmas()
+        s = self.solver
+        s.push()
+        s.set("timeout", timeout_ms)
+        s.add(z3.Not(f))
+        r = s.check()
+        s.pop()
+        s.set("timeout", self.ctx.branch_timeout_ms)
+        return r == z3.unsat
 
     def effect(self, kind, payload):
         self.effects.append((kind, payload))
